@@ -21,6 +21,9 @@ def oracleC17 (o : ImplObs) : OVerdict :=
   if (o.outcome.splitOn "panic").length > 1 then some "panic"
   else if (o.outcome.splitOn "wedged").length > 1 then some "wedged:read-did-not-return"
   else if o.outcome.startsWith "hup+line:" then some "stalled-with-unread-keys-until-hang-up"
+  -- an error that is neither end-of-file, interruption, a terminal I/O error, invalid input bytes
+  -- nor a helper's own error (e.g. a window-size signal handed back to the caller)
+  else if o.outcome == "other" || o.outcome == "hup+other" then some "read-ended-with-an-error-nothing-asked-for"
   else none
 
 /-! ### C13 — Enter returns a line only if the validator accepts exactly that line -/
